@@ -27,10 +27,10 @@ type Item struct {
 
 // c12u is the finite universe of a run.
 type c12u struct {
-	Scripts []templ.ComponentScript
-	Css     []templ.ComponentCSSClass
-	Reg     map[string]bool // css IDs registered with the middleware
-	OnceWith []bool         // handle i was created WithComponent
+	Scripts  []templ.ComponentScript
+	Css      []templ.ComponentCSSClass
+	Reg      map[string]bool // css IDs registered with the middleware
+	OnceWith []bool          // handle i was created WithComponent
 }
 
 var scriptPool = func() []templ.ComponentScript {
@@ -125,7 +125,6 @@ type nodeExt struct {
 	Ss    []int // ashape: the three script parameters
 	Conds int   // ashape: the condition bits
 }
-
 
 func (e *Env) counted(rec useRec, c templ.Component) templ.Component {
 	return templ.ComponentFunc(func(ctx context.Context, w io.Writer) error {
@@ -581,16 +580,16 @@ func checkC12(rc *kernel.RunCtx, k *kernel.Kernel, who string, doc string, uses 
 
 type c12ctx struct {
 	stream   bool // middleware mode: the page handler streams instead of buffering
-	cancelAt int // middleware mode: cancel the request context when this fault point is reached (-1: never)
-	name   string
-	specs  []*Node
-	fault  Fault
-	nonce  bool
-	env    *Env
-	w      *core
-	err    error
-	viaMW  bool
-	status int
+	cancelAt int  // middleware mode: cancel the request context when this fault point is reached (-1: never)
+	name     string
+	specs    []*Node
+	fault    Fault
+	nonce    bool
+	env      *Env
+	w        *core
+	err      error
+	viaMW    bool
+	status   int
 	// errPage: the page fails after rendering everything (buffered handler), and the configured
 	// error handler answers with a templ page of its own (errSpec, tracked by errEnv). The
 	// document the client gets is the error page alone.
